@@ -225,6 +225,8 @@ def run(ctx, P):
     from . import r4
     r4.followup_guard_goes_through_ptr(ctx, P, "C04j")
     r4.resolved_event_per_listing(ctx, P, "C04k")
+    r4.every_packet_dispatched(ctx, P, "C04l")
+    r4.response_tail_always_runs(ctx, P, "C04m", want=("resolve",))
     clause_e(ctx, P)
     clause_a(ctx, P)
     clause_b(ctx, P)
